@@ -52,7 +52,7 @@ def _regex_of_captures(F, p, op, statics, depth=0):
             parent = p.rsplit('::{closure', 1)[0]
             if parent in F.fn_bodies:
                 for i, c in F.calls(parent):
-                    if callee_of(c).endswith('Regex::captures_iter'):
+                    if callee_of(c).endswith(('Regex::captures_iter', 'Regex::captures', 'Regex::captures_at')):
                         recv = c['args'][0]
                         for rr in F.trace(parent, recv):
                             if rr[0] == 'call' and rr[1].endswith('as std::ops::Deref>::deref'):
